@@ -123,6 +123,12 @@ fn twin_pair(x: &BigUint, base_scale: i64, gap: u64, variant: u8, negative: bool
                     y -= 1u8
                 }
             }
+            // neighbours that differ by a multiple of a power of two (all low limbs agree)
+            3 => y += BigUint::from(1u8) << 32,
+            4 => y += BigUint::from(3u8) << 64,
+            5 => y += BigUint::from(1u8) << 96,
+            6 => y += BigUint::from(5u8) << 128,
+            7 => y += BigUint::from(1u8) << 192,
             _ => {}
         }
         y
@@ -144,8 +150,8 @@ fn grid_make(i: u64, gaps: &[u64], words: &[u32]) -> Option<CmpPair> {
     let mut k = i;
     let gap = gaps[(k % gaps.len() as u64) as usize];
     k /= gaps.len() as u64;
-    let variant = (k % 3) as u8;
-    k /= 3;
+    let variant = (k % 8) as u8;
+    k /= 8;
     let negative = k % 2 == 1;
     k /= 2;
     // operand index: 0..nw one word, then nw*nw two words
@@ -165,8 +171,33 @@ fn grid_make(i: u64, gaps: &[u64], words: &[u32]) -> Option<CmpPair> {
     Some(twin_pair(&x, (i % 5) as i64 - 2, gap, variant, negative, scaled_first))
 }
 
+/// coefficients for the gap sweep: around powers of two and ten (bit-length pre-filters), small primes
+fn sweep_coefficients() -> Vec<BigUint> {
+    let mut v: Vec<BigUint> = Vec::new();
+    for k in [0usize, 1, 2, 3, 4, 7, 10, 12, 13, 16, 31, 32, 33, 63, 64, 65, 100, 127, 128, 129, 200] {
+        let p = BigUint::from(1u8) << k;
+        v.push(p.clone());
+        v.push(&p + 1u8);
+        if k > 1 {
+            v.push(&p - 1u8);
+        }
+    }
+    for j in [1u32, 2, 5, 9, 19, 20, 38, 39] {
+        let p = BigUint::from(10u8).pow(j);
+        v.push(p.clone());
+        v.push(&p - 1u8);
+        v.push(&p + 1u8);
+    }
+    for n in [3u32, 5, 7, 9, 11, 99, 1025, 8193, 12345, 65537] {
+        v.push(BigUint::from(n));
+    }
+    v.sort();
+    v.dedup();
+    v
+}
+
 fn twin_strategy(max_len: usize) -> BoxedStrategy<CmpPair> {
-    (gen::digspec(max_len), 1u64..=60, 0..3u8, any::<bool>(), any::<bool>(), -50i64..50, 0..6u8)
+    (gen::digspec(max_len), 1u64..=60, 0..8u8, any::<bool>(), any::<bool>(), -50i64..50, 0..6u8)
         .prop_map(|(spec, gap, variant, neg, first, base, far)| {
             let x: BigUint = gen::digits_of(&spec).parse().unwrap();
             let x = if x == BigUint::from(0u8) { BigUint::from(1u8) } else { x };
@@ -212,7 +243,20 @@ fn extreme_scale_strategy() -> BoxedStrategy<CmpPair> {
         (0i64..8).prop_map(|d| -(1i64 << 62) - d),
         any::<i64>(),
     ];
-    (gen::sdigits(30), ext.clone(), gen::sdigits(30), ext).prop_map(|(ia, sa, ib, sb)| CmpPair { a: D::new(ia, sa), b: D::new(ib, sb) }).boxed()
+    (gen::sdigits(30), ext.clone(), gen::sdigits(30), ext, 0..3u8)
+        .prop_map(|(ia, sa, ib, sb, same)| {
+            if same == 0 && ia != "0" && ib != "0" {
+                // equal adjusted exponents at an extreme scale: the digits decide
+                let la = ia.trim_start_matches('-').len() as i64;
+                let lb = ib.trim_start_matches('-').len() as i64;
+                if let Some(sb2) = sa.checked_add(lb - la) {
+                    let ib2 = if ia.starts_with('-') == ib.starts_with('-') { ib.clone() } else if let Some(r) = ib.strip_prefix('-') { r.to_string() } else { format!("-{}", ib) };
+                    return CmpPair { a: D::new(ia, sa), b: D::new(ib2, sb2) };
+                }
+            }
+            CmpPair { a: D::new(ia, sa), b: D::new(ib, sb) }
+        })
+        .boxed()
 }
 
 /// values straddling 2^64 / 2^128 before and after scaling
@@ -275,9 +319,9 @@ pub fn run(ctx: &Ctx) {
     let nw = words.len() as u64;
     let all_gaps: Vec<u64> = (1..=60).collect();
     let gaps: Vec<u64> = if t == crate::engine::Tier::Quick { QUICK_GAPS.to_vec() } else { all_gaps };
-    let total = gaps.len() as u64 * 3 * 2 * (nw + nw * nw);
+    let total = gaps.len() as u64 * 8 * 2 * (nw + nw * nw);
     let note = format!(
-        "EXHAUSTIVE over: gaps {:?} x {{twin, +1, -1}} x {{+,-}} x all 1-word and 2-word operands from {} boundary words",
+        "EXHAUSTIVE over: gaps {:?} x {{twin, +1, -1, +2^32, +3*2^64, +2^96, +5*2^128, +2^192}} x {{+,-}} x all 1-word and 2-word operands from {} boundary words",
         if gaps.len() > 30 { vec![1, 60] } else { gaps.clone() },
         nw
     );
@@ -285,6 +329,27 @@ pub fn run(ctx: &Ctx) {
         let gaps = gaps.clone();
         let words = words.clone();
         ctx.enumerated("grid-word-twins", "pair", total, true, &note, move |i| grid_make(i, &gaps, &words), check_pair);
+    }
+    {
+        let coeffs = sweep_coefficients();
+        let nc = coeffs.len() as u64;
+        // the checked build repeats only the lower part of the sweep (cost grows with the square of the gap)
+        let max_gap = if ctx.flavour == "chk" { t.pick(500u64, 1500) } else { t.pick(1500u64, 5_000) };
+        ctx.enumerated(
+            "gap-sweep",
+            "pair",
+            max_gap * nc * 8,
+            true,
+            &format!("EXHAUSTIVE: every scale gap 1..={} x {} coefficients around powers of two / ten x {{twin, +1, -1, +2^32, +3*2^64, +2^96, +5*2^128, +2^192}} (sign and side alternate with the index)", max_gap, nc),
+            move |i| {
+                let gap = 1 + i % max_gap;
+                let k = i / max_gap;
+                let x = &coeffs[(k % nc) as usize];
+                let variant = (k / nc) as u8;
+                Some(twin_pair(x, (i % 7) as i64 - 3, gap, variant, i % 2 == 1, (i / 2) % 2 == 0))
+            },
+            check_pair,
+        );
     }
     let max_len = t.pick(300usize, 3000);
     let n = t.pick(200_000u64, 2_000_000);
